@@ -1251,8 +1251,16 @@ VmTrap vm_core_execute(VmState *vm) {
                 vm_release(&vm->heap, arr);
                 return trap_error(vm, VM_ERR_TYPE_ERROR, "ARR_SLICE: not an array");
             }
-            uint32_t start = (uint32_t)(start_v.tag == TAG_INT ? start_v.as.i64 : 0);
-            uint32_t end = (uint32_t)(end_v.tag == TAG_INT ? end_v.as.i64 : arr.as.array->length);
+            /* clamp in 64 bits (like nl_array_slice) before narrowing: 2^32+k must not alias k */
+            int64_t alen = (int64_t)arr.as.array->length;
+            int64_t s64 = start_v.tag == TAG_INT ? start_v.as.i64 : 0;
+            int64_t e64 = end_v.tag == TAG_INT ? end_v.as.i64 : alen;
+            if (s64 < 0) s64 = 0;
+            if (s64 > alen) s64 = alen;
+            if (e64 > alen) e64 = alen;
+            if (e64 < s64) e64 = s64;
+            uint32_t start = (uint32_t)s64;
+            uint32_t end = (uint32_t)e64;
             VmArray *result = vm_array_slice(&vm->heap, arr.as.array, start, end);
             vm_release(&vm->heap, arr);
             stack_push(vm, val_array(result));
